@@ -52,7 +52,7 @@ unsafe fn tx_gpu_header(code: u32, size: usize) {
 }
 
 /// `class`: reply header class for reply-bearing operations (0 conformant: same code, flags 0x4;
-/// 1 foreign code; 2 REPLY bit missing; 3 undefined flag bit)
+/// 1 foreign code; 2 REPLY bit missing; 3 undefined flag bit; 4 conformant header, stream ends before the body)
 fn e_gpu(op: u32, class: usize) {
     // SAFETY: descriptor 5 is never used for real I/O
     let b = ManuallyDrop::new(GpuBackend::from_stream(unsafe { UnixStream::from_raw_fd(5) }));
@@ -70,8 +70,9 @@ fn e_gpu(op: u32, class: usize) {
         let flags = match class { 2 => 0x0, 3 => 0x5, _ => 0x4 };
         g::put_hdr(0, code, flags, rsize as u32);
         g::put64(12, rval);
-        g::G.rx_len = 12 + rsize;
-        g::G.rx_closed = false;
+        // class 4: conformant reply header, then the peer closes the connection before the body arrives
+        g::G.rx_len = if class == 4 { 12 } else { 12 + rsize };
+        g::G.rx_closed = class == 4;
         g::G.rx_nfds = nfds;
     }
     let ev = ManuallyDrop::new(unsafe { std::fs::File::from_raw_fd(LENT_FD) });
@@ -209,6 +210,8 @@ e_gp!(e_gp_update, 8, 0);
 e_gp!(e_gp_get_protocol_features, 1, 0);
 // @harness props=C06,C10 tier=quick reach=off timeout=900 mem=24 bound="GpuBackend::get_protocol_features answered with another request's code, value and 0..=1 descriptors symbolic" stubs="raw_recvmsg/raw_sendmsg (+lock probe), Mutex::lock (acquisition counter, self-deadlock detector), close, OwnedFd::drop, handle_alloc_error, fmt::format"
 e_gp!(e_gp_get_protocol_features_foreign, 1, 1);
+// @harness props=C06,C10,C08,C03 tier=quick reach=off timeout=900 mem=24 bound="GpuBackend::get_protocol_features answered with a conformant reply header after which the peer closes the connection (no body): must be an error, never a default value; 0..=1 descriptors" stubs="raw_recvmsg/raw_sendmsg (+lock probe), Mutex::lock (acquisition counter, self-deadlock detector), close, OwnedFd::drop, handle_alloc_error, fmt::format"
+e_gp!(e_gp_get_protocol_features_cut_by_eof, 1, 4);
 // @harness props=C06,C10 tier=thorough reach=off timeout=900 mem=24 bound="GpuBackend::get_protocol_features answered without the REPLY flag" stubs="raw_recvmsg/raw_sendmsg (+lock probe), Mutex::lock (acquisition counter, self-deadlock detector), close, OwnedFd::drop, handle_alloc_error, fmt::format"
 e_gp!(e_gp_get_protocol_features_noreply, 1, 2);
 // @harness props=C06,C10 tier=thorough reach=off timeout=900 mem=24 bound="GpuBackend::get_protocol_features answered with an undefined flag bit" stubs="raw_recvmsg/raw_sendmsg (+lock probe), Mutex::lock (acquisition counter, self-deadlock detector), close, OwnedFd::drop, handle_alloc_error, fmt::format"
